@@ -392,3 +392,43 @@ class T1BlockTag(nfc.tag.tt1.Type1Tag):
         require(data != self.mem[addr], 'only octets whose content differs are written')
         self.mem = self.mem[0:addr] + bytes([data]) + self.mem[addr + 1:]
         self.writes = self.writes + 1
+
+
+import nfc.clf
+
+
+class EmuNdefMemory(object):
+    """The application side of an emulated Type 3 Tag (as examples/tagtool.py serves it): `mem` holds nblocks
+    blocks of 16 octets; the read service answers blocks that exist, the write service stores them."""
+    def __init__(self, mem, nblocks):
+        self.mem = mem
+        self.nblocks = nblocks
+        self.calls = 0
+
+    def ndef_read(self, block_number, rb, re):
+        if block_number < self.nblocks:
+            return bytearray(self.mem[16 * block_number:16 * (block_number + 1)])
+
+    def ndef_write(self, block_number, block_data, wb, we):
+        if block_number < self.nblocks:
+            require(len(block_data) == 16, 'the write service receives whole blocks')
+            self.mem = self.mem[0:16 * block_number] + bytes(block_data) + self.mem[16 * (block_number + 1):]
+            self.calls = self.calls + 1
+            return True
+        return False
+
+
+class LoopbackClf(object):
+    """The RF link between a reader's Type3Tag object and the library's own Type3TagEmulation: what the reader
+    sends is the command the emulation processes (as ContactlessFrontend.connect(card=...) does: process_command,
+    send_response); no answer is a timeout."""
+    def __init__(self, emu):
+        self.emu = emu
+        self.commands = 0
+
+    def exchange(self, data, timeout):
+        self.commands = self.commands + 1
+        rsp = self.emu.process_command(bytearray(data))
+        if rsp is None:
+            raise nfc.clf.TimeoutError("no response")
+        return rsp
